@@ -10,3 +10,5 @@ pub mod soup;
 pub mod bits;
 pub mod jq;
 pub mod jqrun;
+pub mod mono;
+pub mod parens;
